@@ -1120,22 +1120,15 @@ func (d *Data) GetKeysInRange(ctx storage.VersionedCtx, keyBeg, keyEnd string) (
 			pos++
 		}
 	} else {
-		var begTKey, endTKey storage.TKey
-		begTKey, err = NewTKey(keyBeg)
-		if err != nil {
-			return nil, err
-		}
-		endTKey, err = NewTKey(keyEnd)
-		if err != nil {
-			return nil, err
-		}
+		// Stored keys are ordered as strings ("10" < "5"), so a string range is not the numeric
+		// range the in-memory path serves: scan the annotation keys and select numerically.
 		process_func := func(key string) {
 			bodyid, err := parseKeyStr(key)
 			if err == nil && bodyid >= bodyidBeg && bodyid <= bodyidEnd {
 				keys = append(keys, key)
 			}
 		}
-		err = d.processStoreKeysInRange(ctx, begTKey, endTKey, process_func)
+		err = d.processStoreKeysInRange(ctx, MinAnnotationTKey, MaxAnnotationTKey, process_func)
 	}
 	return
 }
@@ -1743,14 +1736,6 @@ func (d *Data) sendJSONValuesInRange(ctx storage.VersionedCtx, w http.ResponseWr
 		return 0, err
 	}
 
-	first, err := NewTKey(keyBeg)
-	if err != nil {
-		return 0, err
-	}
-	last, err := NewTKey(keyEnd)
-	if err != nil {
-		return 0, err
-	}
 	db, err := datastore.GetOrderedKeyValueDB(d)
 	if err != nil {
 		return 0, err
@@ -1789,7 +1774,8 @@ func (d *Data) sendJSONValuesInRange(ctx storage.VersionedCtx, w http.ResponseWr
 		}()
 	} else { // Handle on-disk store.
 		go func() {
-			err = db.ProcessRange(ctx, first, last, &storage.ChunkOp{}, func(c *storage.Chunk) error {
+			// string order of stored keys is not numeric order: scan all, select numerically
+			err = db.ProcessRange(ctx, MinAnnotationTKey, MaxAnnotationTKey, &storage.ChunkOp{}, func(c *storage.Chunk) error {
 				if c == nil || c.TKeyValue == nil {
 					return nil
 				}
@@ -1808,6 +1794,9 @@ func (d *Data) sendJSONValuesInRange(ctx storage.VersionedCtx, w http.ResponseWr
 				bodyid, err := parseKeyStr(key)
 				if err != nil {
 					return err
+				}
+				if bodyid < bodyidBeg || bodyid > bodyidEnd {
+					return nil
 				}
 				writeCh <- writeData{bodyid, jsonData} // fields are selected in selectData, as on the in-memory path
 				return nil
